@@ -78,6 +78,18 @@ func main() {
 			r.Notes["partial_run_only_scenario"] = *only
 		}
 		os.Exit(r.Finish(p))
+	case "worker":
+		fs := flag.NewFlagSet("worker", flag.ExitOnError)
+		prop := fs.String("prop", "", "")
+		scen := fs.String("scenario", "", "")
+		tier := fs.String("tier", "quick", "")
+		seed := fs.Int64("seed", 1, "")
+		shard := fs.Int("shard", 0, "")
+		of := fs.Int("of", 1, "")
+		from := fs.Int("from", 0, "")
+		only := fs.String("only", "", "file with one case (replay)")
+		fs.Parse(os.Args[2:])
+		engine.WorkerMain(*prop, *scen, *tier, *seed, *shard, *of, *from, *only)
 	case "replay":
 		if len(os.Args) < 3 {
 			fmt.Println("usage: gotsmc replay <file>")
